@@ -60,6 +60,13 @@ pub enum Ty {
   Unit,
   /// a non-generic class, or a generic one instantiated with int (`Name<int>`)
   Class(String, bool),
+  /// a generic struct class instantiated with another type (`Name<Arg>`)
+  ClassArg(String, Box<Ty>),
+  /// a one-argument function type `(A) -> R`
+  Fn(Box<Ty>, Box<Ty>),
+  /// a type name that no module declares (an unresolved, usually long, class name in a type
+  /// position: the only root of its string is the stored diagnostic and the annotation itself)
+  Unresolved(String),
 }
 
 impl Ty {
@@ -71,6 +78,9 @@ impl Ty {
       Ty::Unit => "unit".into(),
       Ty::Class(n, false) => n.clone(),
       Ty::Class(n, true) => format!("{n}<int>"),
+      Ty::ClassArg(n, a) => format!("{n}<{}>", a.render()),
+      Ty::Fn(a, r) => format!("({}) -> {}", a.render(), r.render()),
+      Ty::Unresolved(n) => n.clone(),
     }
   }
 }
@@ -186,6 +196,31 @@ impl Gen {
   }
 
   fn simple_ty(&self, rng: &mut Rng, classes: &[(String, bool)]) -> Ty {
+    match rng.below(28) {
+      26 => {
+        let a = self.base_ty(rng, classes);
+        let r = self.base_ty(rng, classes);
+        return Ty::Fn(Box::new(a), Box::new(r));
+      }
+      27 => {
+        return Ty::Unresolved(rng.pick(&["UnresolvedButVeryLongTypeNameOne", "AnotherUnresolvedLongTypeName", "Unresolved"]).to_string());
+      }
+      24 | 25 => {
+        // generic struct applied to another class
+        let generics: Vec<&(String, bool)> = classes.iter().filter(|c| c.1).collect();
+        let plain: Vec<&(String, bool)> = classes.iter().filter(|c| !c.1).collect();
+        if !generics.is_empty() && !plain.is_empty() {
+          let g = rng.pick(&generics).0.clone();
+          let a = rng.pick(&plain).0.clone();
+          return Ty::ClassArg(g, Box::new(Ty::Class(a, false)));
+        }
+      }
+      _ => {}
+    }
+    self.base_ty(rng, classes)
+  }
+
+  fn base_ty(&self, rng: &mut Rng, classes: &[(String, bool)]) -> Ty {
     match rng.below(10) {
       0..=3 => Ty::Int,
       4 => Ty::Bool,
@@ -484,10 +519,18 @@ impl Gen {
       match rng.below(6) {
         0 | 1 | 2 => {
           let name = self.fresh_lower(rng, &taken);
-          let ty = match rng.below(3) {
+          let ty = match rng.below(5) {
             0 => Ty::Int,
             1 => Ty::Str,
-            _ => Ty::Bool,
+            2 => Ty::Bool,
+            _ => {
+              let cs: Vec<(String, bool)> = visible
+                .iter()
+                .filter(|c| !matches!(c.kind, ClassKind::Interface))
+                .map(|c| (c.name.clone(), c.tparam.is_some()))
+                .collect();
+              self.simple_ty(rng, &cs)
+            }
           };
           let e = self.gen_expr(rng, &ty, 2, scope, visible);
           let annot = if rng.chance(1, 3) { format!(": {}", ty.render()) } else { String::new() };
@@ -542,6 +585,20 @@ impl Gen {
     let locals_of: Vec<String> = scope.locals.iter().filter(|(_, t)| t == ty).map(|(n, _)| n.clone()).collect();
     if !locals_of.is_empty() && rng.chance(2, 5) {
       return rng.pick(&locals_of).clone();
+    }
+    // apply a function-typed local or parameter
+    let fn_locals: Vec<(String, Ty)> = scope
+      .locals
+      .iter()
+      .filter_map(|(n, t)| match t {
+        Ty::Fn(a, r) if **r == *ty => Some((n.clone(), (**a).clone())),
+        _ => None,
+      })
+      .collect();
+    if depth > 0 && !fn_locals.is_empty() && rng.chance(1, 2) {
+      let (n, a) = rng.pick(&fn_locals).clone();
+      let arg = self.gen_expr(rng, &a, depth - 1, scope, visible);
+      return format!("{n}({arg})");
     }
     // field of this
     if scope.in_method {
@@ -645,6 +702,23 @@ impl Gen {
           format!("Process.println({a})")
         }
       },
+      Ty::Unresolved(n) => format!("Process.panic<{n}>(\"a value of an unresolved type\")"),
+      Ty::Fn(a, r) => {
+        let taken: Vec<String> = scope.locals.iter().map(|(n, _)| n.clone()).collect();
+        let p = self.fresh_lower(rng, &taken);
+        let saved = scope.locals.len();
+        scope.locals.push((p.clone(), (**a).clone()));
+        let body = self.gen_expr(rng, r, depth.saturating_sub(1), scope, visible);
+        scope.locals.truncate(saved);
+        if rng.chance(2, 3) { format!("({p}: {}) -> {body}", a.render()) } else { format!("({p}) -> {body}") }
+      }
+      Ty::ClassArg(n, a) => {
+        if depth == 0 {
+          return format!("Process.panic<{}>(\"depth\")", ty.render());
+        }
+        let arg = self.gen_expr(rng, a, depth - 1, scope, visible);
+        format!("{n}.init({arg})")
+      }
       Ty::Class(name, generic) => {
         let c = visible.iter().find(|c| &c.name == name);
         match c {
